@@ -491,7 +491,10 @@ _CROSS = {
     "C04-b1": ["C03", "C09", "C14"], "C04-b3": ["C03", "C08", "C09", "C14"], "C03-b1": ["C04", "C09", "C14"],
     "C03-b2": ["C04"], "C03-b3": ["C14"], "C14-b3": ["C03"], "C20-b4": ["C09"],
 }
-_CROSS2 = {}
+_CROSS2 = {
+    "C01-b2-4": ["C12", "C13", "C19"], "C11-b2-1": ["C12", "C13", "C19"], "C03-b2-2": ["C04"], "C03-b2-4": ["C05", "C15"],
+    "C14-b2-3": ["C15"], "C04-b2-3": ["C03"], "C06-b2-1": ["C02", "C20"], "C08-b2-2": ["C03"],
+}
 for _f in sorted(_glob.glob("/verif/selftest/variants/b2/C*-b2-*.diff")):
     _name = os.path.basename(_f)[:-5]
     _own = _name.split("-")[0]
